@@ -3,16 +3,17 @@
 # quick check, records the outcome, and restores /repo. Output: tab-separated
 # id, rc, first failing obligation (or "-").
 cd /verif
-for d in seeded/C*/; do
-  id=$(basename $d)
+# usage: run_seeds.sh [glob]   (default: every seed; e.g. 'C*-r2')
+for d in seeded/${1:-C*}/; do
+  name=$(basename $d); id=${name%%-*}
   if ! git -C /repo apply --check /verif/$d/patch.diff 2>/dev/null; then
-    echo -e "$id\tNOAPPLY\t-"; continue
+    echo -e "$name\tNOAPPLY\t-"; continue
   fi
   git -C /repo apply /verif/$d/patch.diff
   out=$(./run.sh $id quick 2>&1); rc=$?
   git -C /repo checkout -- . >/dev/null 2>&1
   first=$(echo "$out" | grep -E "VIOLATED|UNDECIDED" | head -1 | sed -E 's/^ *(VIOLATED|UNDECIDED) +[^ ]* +//' | cut -c1-160)
   n=$(echo "$out" | grep -cE "VIOLATED|UNDECIDED")
-  echo -e "$id\t$rc\t$n\t${first:--}"
+  echo -e "$name\t$rc\t$n\t${first:--}"
 done
 git -C /repo status --short | head -3
